@@ -16,17 +16,37 @@ import (
 // ---- C15/X1,X2 (+ C10/G5, C19/R1): one scenario shot against model steps ----
 
 type xClient struct {
-	failAt int // Do fails on this call (0-based), -1 never
-	calls  []string
-	status int
-	body   string
+	failAt    int // Do fails on this call (0-based), -1 never
+	calls     []string
+	status    int
+	body      string
+	bodyErrAt int // the body of this call's response breaks off with a read error, -1 never
 }
+
+// xBrokenBody delivers its data, then fails (connection reset while the body is being read).
+type xBrokenBody struct {
+	data string
+	off  int
+}
+
+func (b *xBrokenBody) Read(p []byte) (int, error) {
+	if b.off < len(b.data) {
+		n := copy(p, b.data[b.off:])
+		b.off += n
+		return n, nil
+	}
+	return 0, errors.New("read: connection reset by peer")
+}
+func (b *xBrokenBody) Close() error { return nil }
 
 func (c *xClient) Do(req *http.Request) (*http.Response, error) {
 	i := len(c.calls)
 	c.calls = append(c.calls, req.URL.Path)
 	if i == c.failAt {
 		return nil, errors.New("connection reset")
+	}
+	if i == c.bodyErrAt {
+		return &http.Response{StatusCode: c.status, Header: http.Header{"X-Tok": []string{"v"}}, Body: &xBrokenBody{data: c.body}}, nil
 	}
 	return &http.Response{StatusCode: c.status, Header: http.Header{"X-Tok": []string{"v"}}, Body: io.NopCloser(strings.NewReader(c.body))}, nil
 }
@@ -104,9 +124,9 @@ func (xStorage) Variables() map[string]any { return map[string]any{"k": "srcval"
 func HarnessC15ScenarioShot() {
 	nSteps := int(vConcretize(vNondetInt("steps", 1, 3)))
 	failStep := int(vConcretize(vNondetInt("failStep", -1, int64(nSteps)-1))) // -1: none fails
-	failKind := vConcretize(vNondetInt("failKind", 0, 3))                     // 0 transport 1 template 2 assertion 3 preprocessor
+	failKind := vConcretize(vNondetInt("failKind", 0, 4))                     // 0 transport 1 template 2 assertion 3 preprocessor 4 body read error
 	names := []string{"s0", "s1", "s2"}
-	cl := &xClient{failAt: -1, status: int(vNondetInt("status", 200, 599))}
+	cl := &xClient{failAt: -1, bodyErrAt: -1, status: int(vNondetInt("status", 200, 599))}
 	cl.body = vNondetString("body", int(vConcretize(vNondetInt("bodylen", 0, 2)))) // the target may answer with an empty body
 	tp := &xTemplater{seen: map[string]map[string]any{}}
 	var reqs []Request
@@ -121,8 +141,10 @@ func HarnessC15ScenarioShot() {
 				tp.failAt = names[i]
 			case 2:
 				post.fail = true
-			default:
+			case 3:
 				pre.fail = true
+			default:
+				cl.bodyErrAt = i
 			}
 		}
 		reqs = append(reqs, Request{Method: "GET", URI: "/" + names[i], Name: names[i], Templater: tp,
@@ -158,7 +180,9 @@ func HarnessC15ScenarioShot() {
 			// (a failed step is additionally marked with the __EMPTY__ tag by reportErr)
 			vCheck("G5.failed.sample.tag", s.Tags() == "sc."+names[i]+"|"+EmptyTag)
 			vCheck("X1.failed.step.has.error", s.Err() != nil)
-			vCheck("X1.failed.step.proto.zero", s.ProtoCode() == 0)
+			if failKind != 4 {
+				vCheck("X1.failed.step.proto.zero", s.ProtoCode() == 0)
+			}
 		} else {
 			vCheck("G5.sample.tag", s.Tags() == "sc."+names[i])
 			vCheck("X1.ok.step.status", s.ProtoCode() == cl.status && s.Err() == nil)
